@@ -41,7 +41,9 @@ def _domain_values(kind: str, args: dict) -> list | None:
 class Gen:
     """One generator per program: keeps the per-name kind / categorical choice list fixed."""
 
-    def __init__(self, rng, names: list[str], finite: bool, max_children: int = 4, allow_log: bool = True) -> None:
+    def __init__(self, rng, names: list[str], finite: bool, max_children: int = 4, allow_log: bool = True, fixed_args: bool = False) -> None:
+        self.fixed_args = fixed_args  # one range per name in every branch (needed by GridSampler programs)
+        self._args_cache: dict[str, tuple] = {}
         self.rng = rng
         self.names = names
         self.finite = finite
@@ -50,8 +52,16 @@ class Gen:
         self.kind_of: dict[str, str] = {}
         self.choices_of: dict[str, list] = {}
         self.log_of: dict[str, bool] = {}
+        self.fmode: dict[str, str] = {}
 
     def _args(self, name: str) -> tuple[str, dict]:
+        if self.fixed_args:
+            if name not in self._args_cache:
+                self._args_cache[name] = self._args_fresh(name)
+            return self._args_cache[name]
+        return self._args_fresh(name)
+
+    def _args_fresh(self, name: str) -> tuple[str, dict]:
         rng = self.rng
         kind = self.kind_of.setdefault(name, rng.choice(["cat", "int", "float"]))
         if kind == "cat":
@@ -67,8 +77,9 @@ class Gen:
             step = rng.randint(1, 3)
             n = rng.randint(0, self.max_children - 1)
             return kind, {"low": lo, "high": lo + step * n + rng.randint(0, step - 1), "step": step}
-        # float
-        if self.finite or rng.random() < 0.3:
+        # float: one mode per name (a name must keep its log configuration in every branch)
+        fmode = self.fmode.setdefault(name, "step" if (self.finite or rng.random() < 0.3) else ("log" if (self.allow_log and rng.random() < 0.3) else "plain"))
+        if fmode == "step":
             lo = rng.choice([0.0, 0.1, -0.5, 1.0, 0.3])
             step = rng.choice([0.1, 0.25, 0.5, 0.2, 0.3])
             n = rng.randint(0, self.max_children - 1)
@@ -77,8 +88,7 @@ class Gen:
                 hi = float(f"{hi + step * 0.4:.10g}")  # step does not divide the range
             self.log_of.setdefault(name, False)
             return kind, {"low": lo, "high": hi, "step": step}
-        log = self.log_of.setdefault(name, self.allow_log and rng.random() < 0.3)
-        if log:
+        if fmode == "log":
             lo = 10 ** rng.uniform(-4, 0)
             return kind, {"low": lo, "high": lo * 10 ** rng.uniform(0.1, 4), "log": True}
         lo = rng.uniform(-5, 5)
